@@ -413,6 +413,9 @@ class TriangularLattice(SquareLattice):
         # Hence, we store pattern in format Sequence[Sequence[int]].
         return {'type': type(self).__name__,
                 'dict_ver': 1,
+                'dims': self.dims,
+                'boundary': self.boundary,
+                'full_patch': self.full_patch,
                 'pattern': [[self.site2index((row, col)) for col in range(self.Ny)] for row in range(self.Nx)]}
 
 
@@ -515,7 +518,7 @@ class Lattice():
             elif d['type'] in ["rectangularunitcell", "RectangularUnitcell"]:
                 net = RectangularUnitcell(pattern=d['pattern'])
             elif d['type'] in ["triangular", "TriangularLattice"]:
-                net = TriangularLattice()
+                net = TriangularLattice(**{k: d[k] for k in ('dims', 'boundary', 'full_patch') if k in d})
             psi = cls(net)
             for site in psi.sites():
                 obj = DATA_CLASSES["Tensor"].from_dict(d['data'][site], config)
